@@ -249,6 +249,34 @@ Section WithDigest.
   Definition add_ro (w : world) (v : option bool) (items : list item) : world :=
     if (match v with Some b => b | None => w_verify w end) then fold_left pre_step items w else w.
 
+  (* dvc_data.hashfile.check(odb, obj): for a Tree every entry id, then the tree's own .dir id, one
+     odb.check after the other; the first exception leaves the function *)
+  Fixpoint check_seq (w : world) (os : list oid) : N * world :=
+    match os with
+    | [] => (0, w)
+    | o :: r => let c := check w o in if fst c =? 0 then check_seq (snd c) r else c
+    end.
+
+  (* hashfile.transfer.transfer(staging, odb, ids, verify=v, hardlink=h) of file objects staged by
+     build(): compare_status asks the destination's oids_exist (Local: a check per id), what is not
+     there is new; _do_transfer -> dest.add(..., verify=v, check_exists=False, hardlink=h) of the new
+     ones (a hard link carries the source's token and mode; a copy gets a fresh token);
+     TransferResult(transferred = new - failed, failed = the ids reported through on_error) *)
+  Definition mem_oid (o : oid) (l : list oid) : bool := existsb (list_N_eqb o) l.
+
+  Definition xfer_new (ex : list oid) (items : list item) : list item :=
+    filter (fun i => negb (mem_oid (it_oid i) ex)) items.
+
+  Definition xfer (w : world) (v : bool) (items : list item) : list oid * list oid * world :=
+    let r := oids_exist w (map it_oid items) in
+    let new := xfer_new (fst r) items in
+    match new with
+    | [] => ([], [], snd r)
+    | _ :: _ =>
+        let a := add (snd r) (Some v) new in
+        (filter (fun o => negb (mem_oid o (snd (fst a)))) (map it_oid new), snd (fst a), snd a)
+    end.
+
   (* ---------------------------------------------------------------- histories *)
   Inductive op :=
   | OAdd (v : option bool) (items : list item)
@@ -261,7 +289,9 @@ Section WithDigest.
   | ODel (o : oid)                                     (* environment: the object file is deleted *)
   | OHash (o : oid)                                    (* hash_file(path of o, ..., state) *)
   | OSaveRow (o : oid) (alg : name) (v : oid)          (* state.save(path of o, HashInfo(alg, v)) *)
-  | ODropState.                                        (* the state database is wiped *)
+  | ODropState                                         (* the state database is wiped *)
+  | OCheckSeq (os : list oid)                          (* hashfile.check(odb, tree): entries, then the tree *)
+  | OXfer (v : bool) (items : list item).              (* transfer(staging, odb, ids, verify=v, hardlink=..) *)
 
   Inductive out :=
   | ONone
@@ -270,7 +300,8 @@ Section WithDigest.
   | OExists (l : list oid)
   | OCheckedOut (r : N) (b : option bytes)
   | OCheckedOutDir (r : N) (files : list (list N * bytes))
-  | OHashed (v : option oid).
+  | OHashed (v : option oid)
+  | OXfered (transferred failed : list oid).
 
   Definition step (w : world) (p : op) : world * out :=
     match p with
@@ -295,6 +326,8 @@ Section WithDigest.
         | None => (w, ORes 2)
         end
     | ODropState => (with_db w [], ONone)
+    | OCheckSeq os => let r := check_seq w os in (snd r, ORes (fst r))
+    | OXfer v items => let r := xfer w v items in (snd r, OXfered (fst (fst r)) (snd (fst r)))
     end.
 
   Fixpoint run (w : world) (h : list op) : list out * world :=
@@ -318,6 +351,7 @@ Section WithDigest.
             VL (map (fun nb => VL [VB (fst nb); VB (snd nb)])
                     (sort_by (fun a b => lex_leb (fst a) (fst b)) fs))]
     | OHashed v => VL [VN 5; enc_option VB v]
+    | OXfered tr fl => VL [VN 7; enc_set tr; enc_set fl]
     end.
 
   Definition by_key {A} (l : list (oid * A)) : list (oid * A) :=
